@@ -132,6 +132,16 @@ pub fn run(seed: u64, n: usize, out: &mut Out, tier: &str) {
         let mut lines: Vec<String> = rules.iter().map(|(l, x, b)| format!("{}{}+js({})", l, if *x { "#@#" } else { "##" }, b)).collect();
         lines.extend(rejected.iter().cloned());
         let mut e = Engine::from_rules_parametrised(&lines, Default::default(), true, true);
+        if r.pct(40) {
+            // the same engine saved and loaded again (resources are given after the load, as an embedder does)
+            if let Ok(bytes) = e.serialize_raw() {
+                let mut e2 = Engine::new(true);
+                if e2.deserialize(&bytes).is_ok() {
+                    e = e2;
+                    out.bump("exception_hierarchy_engines_reloaded");
+                }
+            }
+        }
         e.use_resources(vec![mk_resource("fnlet.js", &[], ResourceType::Mime(MimeType::ApplicationJavascript), "function fnlet(a, b, c) { BODY_FNLET }", 0)]);
         for host in hosts {
             let covers = |loc: &str| -> bool {
